@@ -53,12 +53,28 @@ def repr_string(string: str, indent: int = 0, prefer_single_qoute: bool = False)
     if "\n" not in string:
         # Single line string
         return f"{preferred_quote}{escape_quotes(string, which_quotes=preferred_quote)}{preferred_quote}"
+    if not _multiline_string_reads_back(string, indent):
+        # The indentation rules of multi line strings would change this string. We fall back to single line string representation.
+        return f"{preferred_quote}{escape_newlines(escape_quotes(string, which_quotes=preferred_quote))}{preferred_quote}"
     if preferred_multiline_quote in string:
         if secondary_multiline_quote in string:
             # uh oh... We can't properly handle this at the moment. We fall back to single line string representation.
             return f"{preferred_quote}{escape_newlines(escape_quotes(string, which_quotes=preferred_quote))}{preferred_quote}"
         return _repr_multiline_string(string, indent, secondary_multiline_quote)
     return _repr_multiline_string(string, indent, preferred_multiline_quote)
+
+
+def _multiline_string_reads_back(string: str, indent: int) -> bool:
+    """
+    Whether the multi line representation of the string is read back as the same string: The least indentation of all lines
+    is removed when reading, and a blank last line is taken for the line of the closing quotes.
+    """
+    lines = string.split("\n")
+    if all(line.startswith(" ") for line in lines):
+        return False
+    if indent == 0 and lines[-1].strip(" ") == "":
+        return False
+    return True
 
 
 def _repr_multiline_string(string: str, indent: int, delimiter: str) -> str:
